@@ -518,6 +518,7 @@ type Got struct {
 }
 
 type DiscTrace struct {
+	DupOnWire  bool `json:"dupOnWire"` // ... although refused, it was transmitted
 	DupRefused    bool   `json:"dupRefused"` // a discovery with the token of a pending one was refused
 	Op            string `json:"op"`
 	Got           []Got  `json:"got"`
@@ -619,6 +620,14 @@ func runDiscovery(seed int64) DiscTrace {
 				tr.DupRefused = e != nil
 			case <-time.After(300 * time.Millisecond):
 				tr.DupRefused = false // accepted: it is now waiting for responses
+			}
+			// a refused request has no effect: the responder it was addressed to (the third, which nobody else asks) sees nothing
+			buf := make([]byte, 1500)
+			_ = resp[2].SetReadDeadline(time.Now().Add(150 * time.Millisecond))
+			if k, _, err := resp[2].ReadFromUDP(buf); err == nil {
+				if d, err := memnet.Parse(buf[:k]); err == nil && d.Code == int(codes.GET) {
+					tr.DupOnWire = true
+				}
 			}
 		}
 	}
